@@ -138,71 +138,9 @@ def scc_pipeline(ctx, report):
               and "node_buffer" in src(n.value)]
     report.check(ok and not direct, "R-MUSTCALL", cs, "captions are built by iterating the buffer (never from its raw node list)",
                  {"raw_accesses": direct}, "4")
-    fi = ctx.index.get_function(SPC, "_format_italics")
-    report.covered(fi)
-    order = [call_name(n.value) for n in fi.node.body if isinstance(n, ast.Assign) and isinstance(n.value, ast.Call)]
-    creators = set()
-    for name in order:
-        f = ctx.index.get_function(SPC, name)
-        report.covered(f)
-        for c in walk_no_nested(f.node):
-            if isinstance(c, ast.Call) and (call_name(c) or "").endswith("create_italics_style"):
-                off = any(k.arg == "turn_on" and isinstance(k.value, ast.Constant) and k.value.value is False for k in c.keywords)
-                if not off:
-                    creators.add(name)
-            elif isinstance(c, ast.Call):
-                h = resolve_callee(ctx.index, f, c)
-                if h is not None and h is not f and any(
-                        isinstance(x, ast.Call) and (call_name(x) or "").endswith("create_italics_style") and not any(
-                            k.arg == "turn_on" and isinstance(k.value, ast.Constant) and k.value.value is False
-                            for k in x.keywords) for x in walk_no_nested(h.node)):
-                    creators.add(name)
-    if "_ensure_final_italics_node_closes" not in order:
-        report.violation("R-ORDER", fi, "the closing pass is part of the pipeline", {"passes": order}, "4")
-        return
-    close_at = order.index("_ensure_final_italics_node_closes")
-    late = [n for n in order[close_at + 1:] if n in creators]
-    report.check(not late, "R-ORDER", fi, "every pass that can open italics runs before the pass that closes the last open span",
-                 {"passes": order, "passes_that_create_italics_on": sorted(creators), "after_the_closing_pass": late}, "4")
-    # tracker consistency in the repositioning pass
-    rp = ctx.index.get_function(SPC, "_close_italics_before_repositioning")
-    br = [n for n in walk_no_nested(rp.node) if isinstance(n, ast.If) and "requires_repositioning()" in src(n.test)
-          and "italics_on" in src(n.test)]
-    if len(br) != 1:
-        raise AnalysisError("_close_italics_before_repositioning: repositioning branch not found")
-    def italics_kind(fn_, c):
-        """'ON' / 'OFF' when the call creates an italics node (directly, or through a module helper
-        whose only creation is of that kind), else None"""
-        if not isinstance(c, ast.Call):
-            return None
-        if (call_name(c) or "").endswith("create_italics_style"):
-            off = any(k.arg == "turn_on" and isinstance(k.value, ast.Constant) and k.value.value is False for k in c.keywords)
-            return "OFF" if off else "ON"
-        h = resolve_callee(ctx.index, fn_, c)
-        if h is not None and h is not fn_:
-            inner = {italics_kind(h, x) for x in walk_no_nested(h.node) if isinstance(x, ast.Call)} - {None}
-            if len(inner) == 1:
-                return inner.pop()
-        return None
-    kinds = []
-    for st in br[0].body:
-        for c in walk_no_nested(st):
-            k_ = italics_kind(rp, c)
-            if k_:
-                kinds.append(k_)
-            if isinstance(c, ast.Assign) and src(c.targets[0]) == "italics_on":
-                kinds.append(f"SET {src(c.value)}")
-    sets = [k for k in kinds if k.startswith("SET")]
-    last_node = [k for k in kinds if k in ("ON", "OFF")][-1:] or [None]
-    ok = kinds[:1] == ["OFF"] and last_node == ["ON"] and all(s == "SET True" for s in sets)
-    report.check(ok, "R-TRACKER", (rp, br[0]), "around a repositioning: close, reposition, re-open - and the tracker still says 'italics on'",
-                 {"sequence": kinds, "why": None if ok else "forgetting that italics were re-opened leaves a second "
-                                                             "repositioning in the same italic run unwrapped"}, "4")
-    ef = ctx.index.get_function(SPC, "_ensure_final_italics_node_closes")
-    t = src(ef.node)
-    closes = any(italics_kind(ef, c) == "OFF" for c in walk_no_nested(ef.node))
-    ok = "if italics_on:" in t and closes and "new_collection.append(" in t
-    report.check(ok, "R-MUSTCALL", ef, "an italics span still open at the end is closed", None, "4")
+    # the pipeline itself: folded on every node sequence up to length 4 (quick) / 6 (thorough)
+    from . import scc_italics
+    scc_italics.run(ctx, report, "4", 6 if ctx.tier == "thorough" else 4)
 
 
 def purity(ctx, report):
